@@ -112,12 +112,22 @@ def strategy(tier):
     return st.one_of(_pv(), _transfer(), _transfer())
 
 
-def _count_ok(v, M, n):
-    """(n-1)*M < v <= n*M in rationals, with relative slack at the boundaries."""
+def _count_range(v, M):
+    """Allowed numbers of steps for v > 0: exactly ceil(v/M) in rationals; only when v/M is within 1e-12
+    (relative) of an integer without being one - float noise - both neighbours are accepted."""
     fv, fM = Fraction(v), Fraction(M)
-    lo_ok = (n - 1) * fM < fv * (1 + SLACK)
-    hi_ok = fv <= n * fM * (1 + SLACK)
-    return lo_ok and hi_ok
+    ratio = fv / fM
+    if ratio.denominator == 1:
+        k = max(1, int(ratio))
+        return k, k
+    lo = max(1, math.ceil(fv / (fM * (1 + SLACK))))
+    hi = max(1, math.ceil(fv * (1 + SLACK) / fM))
+    return lo, hi
+
+
+def _count_ok(v, M, n):
+    lo, hi = _count_range(v, M)
+    return lo <= n <= hi
 
 
 def _check_partition(obs, v, M):
@@ -273,10 +283,9 @@ def check_case(case) -> Obs:
         for v in wanted:
             if v == 0:
                 continue
-            fv, fM = Fraction(v), Fraction(M)
-            exact = math.ceil(fv / fM)
-            lo += max(1, math.ceil(fv / (fM * (1 + SLACK))))
-            hi += max(1, math.ceil(fv * (1 + SLACK) / fM))
+            a, b = _count_range(v, M)
+            lo += a
+            hi += b
         if not (lo <= len(steps) <= hi):
             obs.bad("C06/record-count", f"pair {key}: {len(steps)} A/D pairs for requests {wanted} with max_volume={M} (expected {lo}..{hi}); steps {steps[:8]}")
     if any(v > M for v in vols):
